@@ -12,11 +12,11 @@ theorem C20_enterleave_step (s : Event) (c : Counters) (o : Op) (hr : Refines s 
     Refines (step s o) (specStep c o) := by
   cases o with
   | event ev =>
-    exact ⟨adjust_refines _ _ _ _ hr.1 hs.1 hs.2.1, adjust_refines _ _ _ _ hr.2 hs.2.2.1 hs.2.2.2⟩
+    exact ⟨adjust_refines _ _ _ _ hr.1 hs.1, adjust_refines _ _ _ _ hr.2 hs.2⟩
   | reset => exact ⟨rfl, rfl⟩
 
 /-- **Totals are counters, for every event sequence** (any directions, occupants, explicit totals,
-resets, any length): as long as no counter is incremented at the int32 maximum, the stored totals are
+resets, any length): as long as no counter stands at the int32 maximum, the stored totals are
 exactly the two counters of the spec — ENTER adds one to enter_total, LEAVE adds one to leave_total,
 an explicit total different from the current one replaces it, ResetTotals makes both zero. -/
 theorem C20_enterleave_counters (ops : List Op) : ∀ (s : Event) (c : Counters),
@@ -28,12 +28,54 @@ theorem C20_enterleave_counters (ops : List Op) : ∀ (s : Event) (c : Counters)
     exact ih _ _ (C20_enterleave_step s c o h hs.1) hs.2
 
 /-- the default model state (both totals zero) refines the zero counters, which are safe -/
-example : Refines ⟨0, none, some 0, some 0⟩ (0, 0) ∧ Safe (0, 0) := by unfold Refines Safe; decide
+example : Refines ⟨0, none, some 0, some 0⟩ (0, 0) ∧ Safe (0, 0) := by unfold Refines Safe maxInt32; decide
 /-- a model without totals also refines the zero counters -/
 example : Refines ⟨0, none, none, none⟩ (0, 0) := by unfold Refines; decide
 /-- a run satisfying `SafeRun`: two people enter, one leaves → (2, 1) -/
 example : run ⟨0, none, some 0, some 0⟩ [.event ⟨1, none, none, none⟩, .event ⟨1, none, none, none⟩, .event ⟨2, none, none, none⟩]
     = ⟨2, none, some 2, some 1⟩ := by decide
+
+/-- **The excluded point of `C20_enterleave_counters` is real, and what the code does there**: a total at
+the int32 maximum is not incremented by a further ENTER (it saturates; before the fix it wrapped to
+−2147483648), so the plain counter spec (which would say 2147483648) is not refined. -/
+theorem C20_enterleave_counters_fails_at_max :
+    ∃ s c o, Refines s c ∧ ¬ Safe c ∧ ¬ Refines (step s o) (specStep c o) ∧
+      (step s o).enterTotal = some maxInt32 := by
+  refine ⟨⟨0, none, some maxInt32, some 0⟩, (maxInt32, 0), .event ⟨1, none, none, none⟩, ?_, ?_, ?_, ?_⟩
+  · unfold Refines; decide
+  · unfold Safe maxInt32; decide
+  · unfold Refines; decide
+  · decide
+
+/-- **Without any hypothesis: the totals are saturating counters**, for every event sequence — the
+same counter rule, except that a counter at the int32 maximum stays there. -/
+theorem C20_enterleave_saturating (ops : List Op) : ∀ (s : Event) (c : Counters),
+    Refines s c → Refines (run s ops) (ops.foldl satStep c) := by
+  induction ops with
+  | nil => intro s c h; exact h
+  | cons o rest ih =>
+    intro s c h
+    apply ih
+    cases o with
+    | event ev => exact ⟨adjust_refines_sat _ _ _ _ h.1, adjust_refines_sat _ _ _ _ h.2⟩
+    | reset => exact ⟨rfl, rfl⟩
+
+/-- **Totals never become negative**: from non-negative totals, with non-negative explicit totals in
+the events, both totals are non-negative after every sequence (in particular they cannot wrap). -/
+theorem C20_enterleave_nonneg (ops : List Op)
+    (hev : ∀ o ∈ ops, ∀ ev, o = .event ev → (∀ v, ev.enterTotal = some v → 0 ≤ v) ∧ (∀ v, ev.leaveTotal = some v → 0 ≤ v)) :
+    ∀ s : Event, 0 ≤ s.enterTotal.getD 0 → 0 ≤ s.leaveTotal.getD 0 →
+      0 ≤ (run s ops).enterTotal.getD 0 ∧ 0 ≤ (run s ops).leaveTotal.getD 0 := by
+  induction ops with
+  | nil => intro s h1 h2; exact ⟨h1, h2⟩
+  | cons o rest ih =>
+    intro s h1 h2
+    have hrest := ih (fun o' ho' => hev o' (List.mem_cons_of_mem _ ho'))
+    cases o with
+    | event ev =>
+      have h := hev (.event ev) List.mem_cons_self ev rfl
+      exact hrest (step s (.event ev)) (adjust_nonneg _ _ _ h1 h.1) (adjust_nonneg _ _ _ h2 h.2)
+    | reset => exact hrest (step s .reset) (by simp [step, resetTotals, merge]) (by simp [step, resetTotals, merge])
 
 /-- **ResetTotals zeroes both totals and nothing else**, from every state. -/
 theorem C20_enterleave_reset (s : Event) :
